@@ -383,23 +383,26 @@ package callbacks
 //@ # create / update / delete pipelines the first callback registered is gorm:begin_transaction and the last one is
 //@ # gorm:commit_or_rollback_transaction (registration order is execution order: C17). Both are conditional on the
 //@ # default transaction being enabled (Match).
-//@ ghost writePipeline registeredInPipeline commitRegistered
+//@ ghost writePipeline registeredInPipeline commitRegistered pipelineKind
 //@ event call (*callbacks).Create
 //@   in callbacks.RegisterDefaultCallbacks
 //@   requires previous-pipeline-closed: writePipeline == 1 ==> commitRegistered == 1 [C05]
 //@   do writePipeline = 1
+//@   do pipelineKind = 1
 //@   do registeredInPipeline = 0
 //@   do commitRegistered = 0
 //@ event call (*callbacks).Update
 //@   in callbacks.RegisterDefaultCallbacks
 //@   requires previous-pipeline-closed: writePipeline == 1 ==> commitRegistered == 1 [C05]
 //@   do writePipeline = 1
+//@   do pipelineKind = 3
 //@   do registeredInPipeline = 0
 //@   do commitRegistered = 0
 //@ event call (*callbacks).Delete
 //@   in callbacks.RegisterDefaultCallbacks
 //@   requires previous-pipeline-closed: writePipeline == 1 ==> commitRegistered == 1 [C05]
 //@   do writePipeline = 1
+//@   do pipelineKind = 2
 //@   do registeredInPipeline = 0
 //@   do commitRegistered = 0
 //@ event call (*callbacks).Query
@@ -427,6 +430,9 @@ package callbacks
 //@   min-sites 20
 //@   assert not-first-in-a-write-pipeline: writePipeline == 1 ==> registeredInPipeline >= 1 [C05,C13]
 //@   assert not-after-the-commit: writePipeline == 1 ==> commitRegistered == 0 [C05,C13]
+//@   assert documented-order-of-create: writePipeline == 1 && pipelineKind == 1 ==> (registeredInPipeline == 1 ==> arg1 == "gorm:before_create") && (registeredInPipeline == 2 ==> arg1 == "gorm:save_before_associations") && (registeredInPipeline == 3 ==> arg1 == "gorm:create") && (registeredInPipeline == 4 ==> arg1 == "gorm:save_after_associations") && (registeredInPipeline == 5 ==> arg1 == "gorm:after_create") [C13]
+//@   assert documented-order-of-delete: writePipeline == 1 && pipelineKind == 2 ==> (registeredInPipeline == 1 ==> arg1 == "gorm:before_delete") && (registeredInPipeline == 2 ==> arg1 == "gorm:delete_before_associations") && (registeredInPipeline == 3 ==> arg1 == "gorm:delete") && (registeredInPipeline == 4 ==> arg1 == "gorm:after_delete") [C13]
+//@   assert documented-order-of-update: writePipeline == 1 && pipelineKind == 3 ==> (registeredInPipeline == 1 ==> arg1 == "gorm:setup_reflect_value") && (registeredInPipeline == 2 ==> arg1 == "gorm:before_update") && (registeredInPipeline == 3 ==> arg1 == "gorm:save_before_associations") && (registeredInPipeline == 4 ==> arg1 == "gorm:update") && (registeredInPipeline == 5 ==> arg1 == "gorm:save_after_associations") && (registeredInPipeline == 6 ==> arg1 == "gorm:after_update") [C13]
 //@ site transaction-callbacks-bracket-the-pipeline
 //@   match call gorm.(*callback).Register
 //@   in callbacks.RegisterDefaultCallbacks
@@ -459,11 +465,24 @@ package callbacks
 //@   in callbacks.Delete$1
 //@   min-sites 3
 //@   assert key-values-found: keyLookups >= 1 && is(arg1, clause.Where) ==> len(values) > 0 [C09]
+//@ ghost modelWritten
+//@ event calldyn local:assignValue
+//@   in callbacks.ConvertToAssignments
+//@   do modelWritten = 1
 //@ site update-key-condition-only-for-a-set-key
 //@   match call gorm.(*Statement).AddClause
 //@   in callbacks.ConvertToAssignments
 //@   min-sites 3
+//@   entry modelWritten == 0
 //@   assert record-has-the-key: !isZero [C09]
+//@   assert key-read-before-the-new-values-are-written-into-the-model: modelWritten == 0 [C09]
+//@ # The guard against an update or delete without conditions is asked in DryRun too (ToSQL shows what a real run
+//@ # would do: the error, not a statement without WHERE).
+//@ site guard-asked-in-dry-run-too
+//@   match call callbacks.checkMissingWhereConditions
+//@   in callbacks.Update$1 callbacks.Delete$1
+//@   min-sites 2
+//@   cover reached-in-dry-run: db.Config.DryRun [C09,C19]
 
 //@ # ---------- C10: a column with a database default is written by Create only if Select/Omit admit it ----------
 //@ # ConvertToCreateValues adds such a column when a record carries a value for it; that happens only for columns
